@@ -27,7 +27,7 @@ const prop = "C13"
 
 func TestMain(m *testing.M) {
 	vkit.Rec(prop).SetLevel("fault_enumeration",
-		"for each of 17 flows (root rotation fresh/promote/reinitialise, authorize, fetch x {authorized, unknown, token, wrapped, re-wrapped}, token creation, node credential rotation by key ID / node ID, server-certificate generation by key ID / node ID, node-side create / handle) a clean run counts the storage operations n; then EVERY position 1..n x EVERY error kind {generic, not-found, cancelled context} is injected once (operation not performed), with and without a storage wrapper, on in-memory and store-once back ends, in a world that also holds another node's record and an unrelated token. Thorough adds rapid-generated double faults and faults on operation kinds. Oracle: error => nothing handed out; success => fully reflected in storage; consumed token never left usable; bystander records byte-identical. Non-trivial = every (flow, world, position, kind) with the position inside the call; distinct = that tuple.")
+		"for each of 18 flows (root rotation fresh/promote/reinitialise, authorize, fetch x {authorized, unknown, token, wrapped, re-wrapped}, token creation, node credential rotation by key ID / node ID, server-certificate generation by key ID / node ID, node-side create / handle) a clean run counts the storage operations n; then EVERY position 1..n x EVERY error kind {generic, not-found, cancelled context} is injected once (operation not performed), with and without a storage wrapper, on in-memory and store-once back ends, in a world that also holds another node's record and an unrelated token. Thorough adds rapid-generated double faults and faults on operation kinds. Oracle: error => nothing handed out; success => fully reflected in storage; consumed token never left usable; bystander records byte-identical. Non-trivial = every (flow, world, position, kind) with the position inside the call; distinct = that tuple.")
 	vkit.Main(m)
 }
 
@@ -226,6 +226,21 @@ func flows() []flow {
 			c.regW = nodeenrollment.WithRegistrationWrapper(rw)
 			c.actor = vkit.NewActor("subject")
 			c.req = c.actor.Request(c.regW)
+		},
+			run: func(c *cx) (err error) {
+				c.resp, err = registration.FetchNodeCredentials(bg, c.w.Store, c.req, c.w.O(c.regW)...)
+				return
+			}, verify: verifyFetch},
+		{name: "fetch-wrapped-existing-record", setup: func(c *cx) {
+			// the node re-sends its wrapped registration request although its record
+			// already exists (duplicate-record handling on no-overwrite back ends)
+			rw := vkit.NewAead("reg")
+			c.regW = nodeenrollment.WithRegistrationWrapper(rw)
+			c.actor = vkit.NewActor("subject")
+			c.req = c.actor.Request(c.regW)
+			if _, err := registration.FetchNodeCredentials(bg, c.w.Store, c.req, c.w.O(c.regW)...); err != nil {
+				panic(err)
+			}
 		},
 			run: func(c *cx) (err error) {
 				c.resp, err = registration.FetchNodeCredentials(bg, c.w.Store, c.req, c.w.O(c.regW)...)
